@@ -33,6 +33,17 @@ def gen_cases(rng, tier):
         else:
             pts = [rng.choice([f2b(0.5), f2b(1.5), f2b(8191.0), f2b(-0.5), f2b(0.0), f2b(31.984375), f2b(32767.0), f2b(1e6), f2b(100000.5)]) for _ in range(4)]
         cases.append(("line_edge", pts + [rng.choice([0, 0, 2])]))
+    # the i16 fast path of fdot6::div: x-runs and y-runs of exactly / almost 512 px (FDot6 +-32768, +-32767, +-32769)
+    for i in range(120 if tier == "quick" else 1500):
+        x0, y0 = rng.randint(-64, 64 * 40) / 64.0, rng.randint(-64, 64 * 40) / 64.0
+        run = rng.choice([-1, 1]) * (512 + rng.choice([-2, -1, 0, 0, 0, 1, 2]) / 64.0)
+        if i % 3 == 0:
+            pts = [g(x0), g(y0), g(x0 + run), g(y0 + rng.uniform(0.5, 700))]
+        elif i % 3 == 1:
+            pts = [g(x0), g(y0), g(x0 + rng.uniform(-700, 700)), g(y0 + run)]
+        else:
+            pts = [g(x0), g(y0), g(x0 + run), g(y0 + rng.choice([-1, 1]) * (512 + rng.choice([-1, 0, 1]) / 64.0))]
+        cases.append(("line_edge", pts + [rng.choice([0, 0, 2])]))
     # (b) polygons inside the clip, bit-exact spans
     m = 1500 if tier == "quick" else 20000
     for i in range(m):
@@ -65,6 +76,21 @@ def gen_cases(rng, tier):
     for i in range(48 if tier == "quick" else 600):
         w, h = rng.choice([(200, 120), (160, 160), (120, 200)])
         cases.append(("fill_px", [i % 2, 0, rng.choice([0, 0, 1]), w, h, 0, w, 750, 0] + list(IDENT) + lopsided_cubic_ops(rng, w, h) + [4]))
+    # edges whose x-run is exactly 512 px (FDot6 32768, the first value outside the i16 fast path of fdot6::div), as drawn
+    # and as produced by clipping a longer edge against both sides of a 512-px-wide pixmap
+    for i in range(6 if tier == "quick" else 60):
+        hh = rng.randint(20, 40)
+        if i % 2 == 0:
+            x0, y0 = rng.randint(4, 60), rng.randint(2, 8)
+            sgn = rng.choice([-1, 1])
+            xa, xb = (x0, x0 + 512) if sgn > 0 else (x0 + 512, x0)
+            pts = [(xa, y0), (xb, y0 + hh), (xa, y0 + hh)]
+            w = 600
+        else:
+            w = 512
+            y0 = rng.randint(2, 8)
+            pts = [(-40 - rng.randint(0, 30), y0), (w + 40 + rng.randint(0, 30), y0 + hh), (-40, y0 + hh + 6)]
+        cases.append(("fill_px", [i % 2, 0, 0, w, hh + 16, 0, w, 125, 0] + list(IDENT) + poly_ops(pts, grid=1.0)))
     # Pixmap::fill_rect (aliased fast path through Rect::round) with fractional edges
     for i in range(150 if tier == "quick" else 2000):
         w = h = 24
@@ -75,6 +101,13 @@ def gen_cases(rng, tier):
     for i in range(4 if tier == "quick" else 32):
         ops = rand_path_ops(rng, 8191 + rng.uniform(-6, 6), 10, 9, curves=(i % 2 == 1))
         cases.append(("fill_px", [i % 2, 0, (i // 2) % 2, 8230, 20, 8160, 8225, 750 if i % 2 else 125, 0] + list(IDENT) + ops))
+    # shapes that end half a pixel to two pixels past the tile seam: the next tile holds only their last column(s)
+    for i in range(4 if tier == "quick" else 32):
+        x1 = 8191 + rng.choice([0.6, 0.9, 1.3, 1.8])
+        x0 = 8191 - rng.uniform(3, 12)
+        y0, y1 = rng.uniform(2, 5), rng.uniform(12, 17)
+        pts = [(x0, y0), (x1, y0 + rng.uniform(0, 2)), (x1, y1), (x0, y1 - rng.uniform(0, 2))]
+        cases.append(("fill_px", [i % 2, 0, (i // 2) % 2, 8230, 20, 8160, 8225, 125, 0] + list(IDENT) + poly_ops(pts, grid=64.0)))
     # tiled in both directions (8200 x 8200, four tiles): shapes in the top rows and across the horizontal seam of the same
     # tile column; the window of checked columns lies in the left tile column or across the vertical seam
     for i in range(1 if tier == "quick" else 6):
